@@ -1,4 +1,4 @@
-import AnyDB.Lemmas.RegionFile
+import AnyDB.Lemmas.LayoutReopen
 
 /-!
 # C01 — reopen: every region that ever held data or was renamed survives with identical name, length and bytes
@@ -10,28 +10,49 @@ only slots that have been written).
 
 `C01_reopen_partial`: after EVERY history (no earlier `reopen`, no panic, no `RegionSizeOverflow`) that ends in a state in
 which every live region has been written at least once, dropping all handles and opening the directory again — with any
-`min_len`, if the open does not panic in `Layout::from` — shows in every slot exactly what the reference byte vectors hold:
+`min_len` — succeeds (`Layout::from` cannot panic: `reopen_ok`) and shows in every slot exactly what the reference byte vectors hold:
 same name, same length, same bytes; a removed region stays absent.  (A region that was created and never given data or a
 new name has no image in the metadata file; the property does not promise it survives.)
 
-Not proved: that `Layout::from` cannot panic (sortedness and disjointness of the extents read back), and the layout invariant
-of the reopened state — so histories that CONTINUE after a reopen are covered by the correspondence only.
+`C02_reopen_partial`: the layout rebuilt by that reopen has no byte in two extents, positive extents, a start map that agrees
+with the slots, and every byte below its end in exactly one region or free extent (the holes ARE the gaps).
+Not proved: histories that CONTINUE after a reopen (the reference would have to know the length of the metadata file to
+number new slots identically; alignment, bounds and `FInv` of the reopened state are not re-derived) — covered by the correspondence.
 -/
 namespace AnyDB.C01r
 open AnyDB Conc Db C02r Mem
 
 theorem C01_reopen_partial (ops : List Op) (n : Nat) (hr : NoReopen ops) (hf : FineRun Db.init ops)
-    (hw : ∀ idx sl, (run Db.init ops).slot? idx = some sl → sl.st ≠ .needsWrite)
-    (hok : ((run Db.init ops).reopen n).2 = .ok) :
+    (hw : ∀ idx sl, (run Db.init ops).slot? idx = some sl → sl.st ≠ .needsWrite) :
+    ((run Db.init ops).reopen n).2 = .ok ∧
     ∀ idx, viewAt ((run Db.init ops).reopen n).1 idx = ((refRun ops)[idx]?.join).map liftE := by
   obtain ⟨_, hn, hinv⟩ := C01_history_partial ops hr hf
   have hrel := (rel_run Db.init [] ops rel_init.1 rel_init.2 hr hn).1
   have hnp := noPanic_of_fine Db.init ops hf
   have hfinv := finv_run Db.init ops finv_init hr hnp
   have hal := al_run Db.init ops linv_init al_init hr hnp
-  intro idx
+  have hok := (reopen_ok _ n hfinv hinv hal hw).1
+  refine ⟨hok, fun idx => ?_⟩
   rw [reopen_view _ n hfinv hinv hal hw hok idx]
   exact hrel.2 idx
+
+/-- C02 across a reopen at the end of any such history: the rebuilt layout is disjoint, positive, consistent with the slots, and
+fully accounted -/
+theorem C02_reopen_partial (ops : List Op) (n : Nat) (hr : NoReopen ops) (hf : FineRun Db.init ops)
+    (hw : ∀ idx sl, (run Db.init ops).slot? idx = some sl → sl.st ≠ .needsWrite) :
+    LInv ((run Db.init ops).reopen n).1 ∧
+    (∀ x, x < ((run Db.init ops).reopen n).1.layoutLen → cnt (claimedDb ((run Db.init ops).reopen n).1) x = 1) := by
+  obtain ⟨_, hn, hinv⟩ := C01_history_partial ops hr hf
+  have hnp := noPanic_of_fine Db.init ops hf
+  have hfinv := finv_run Db.init ops finv_init hr hnp
+  have hal := al_run Db.init ops linv_init al_init hr hnp
+  obtain ⟨_, hl, hacc⟩ := reopen_ok _ n hfinv hinv hal hw
+  refine ⟨hl, fun x hx => ?_⟩
+  have h1 := hl.one x
+  rcases layoutLen_attained _ hl with h0 | hlast
+  · omega
+  · have := hacc x (((run Db.init ops).reopen n).1.layoutLen - 1) (by omega) hlast
+    omega
 
 /-- the metadata file agrees with the slots after every such history -/
 theorem C01_file_agrees (ops : List Op) (hr : NoReopen ops) (hf : FineRun Db.init ops) : FInv (run Db.init ops) :=
